@@ -207,4 +207,42 @@ theorem extract_inject (v : View) (hwf : v.wf = true) (n : Nat) (hn : 0 < n) (im
       Nat.div_add_mod', Array.getD_eq_getD_getElem?, Array.getElem?_eq_getElem h2]
     rfl
 
+/-! ### typed views: the index list is the contiguous block `[off, off + w*h)` -/
+
+theorem typed_rows_flatten_length (off w h len : Nat) (hw : 0 < w) :
+    ((View.rows (View.typed off w h len) 0).flatten).length = w * h := by
+  have hw0 : ¬ (w = 0) := by omega
+  simp only [View.rows, hw0, if_false, Nat.sub_zero, Nat.zero_add]
+  rw [List.length_flatten, List.map_map]
+  have : (List.length ∘ fun r => View.seg (off + r * w) w) = fun _ => w := by
+    funext r; simp [View.seg]
+  rw [this]
+  simp [Nat.mul_comm]
+
+theorem typed_rows_mem (off w h len q : Nat) (hq : q ∈ (View.rows (View.typed off w h len) 0).flatten) :
+    q < off + w * h := by
+  by_cases hw0 : w = 0
+  · simp [View.rows, hw0] at hq
+  · simp only [View.rows, hw0, if_false, Nat.sub_zero, Nat.zero_add, List.mem_flatten, List.mem_map, List.mem_range] at hq
+    obtain ⟨l, ⟨r, hr, rfl⟩, hql⟩ := hq
+    simp only [View.seg, List.mem_map, List.mem_range] at hql
+    obtain ⟨c, hc, rfl⟩ := hql
+    have : r * w + c < h * w := by
+      have h1 : (r + 1) * w ≤ h * w := Nat.mul_le_mul_right w hr
+      have h2 : (r + 1) * w = r * w + w := Nat.succ_mul r w
+      omega
+    have e : w * h = h * w := Nat.mul_comm w h
+    omega
+
+theorem scratch_fully_overwritten (off w h n : Nat) (hn : 0 < n) (im : Img) (g : Array Int)
+    (hdim : im.data.size = w * h * n) (hw : 0 < w)
+    (hfit : (off + w * h) * n ≤ g.size) :
+    (extractImg (View.typed off w h (w * h)) n (injectImg (View.typed off w h (w * h)) n im g)).data = im.data := by
+  apply extract_inject _ (by simp [View.wf]) n hn im g
+  · rw [typed_rows_flatten_length off w h (w * h) hw]; exact hdim
+  · intro q hq
+    have := typed_rows_mem off w h (w * h) q hq
+    have h1 : (q + 1) * n ≤ (off + w * h) * n := Nat.mul_le_mul_right n this
+    omega
+
 end Fir.Proofs
